@@ -4,21 +4,10 @@
 //      every register/flag/shadow field, pc and every data/program memory write must be identical.
 //  (b) the project's own hardware test generator, streamed through a FIFO: every vector executes without
 //      aborting, advances pc by the instruction length and touches data memory only inside the two windows.
-#include <fcntl.h>
-#include <sys/stat.h>
-#include <thread>
-#include <unistd.h>
-
+#include "genstream.h"
 #include "icase.h"
 #include "optable.h"
 #include "vf.h"
-
-namespace Teakra::Test {
-bool GenerateTestCasesToFile(const char* path);
-namespace Random {
-void VerifSetSeed(uint32_t seed);
-}
-} // namespace Teakra::Test
 
 namespace {
 
@@ -158,10 +147,7 @@ std::string g_vec_failure_path;
 
 vf::Result check_vector(icase::Machine& m, const std::vector<uint8_t>& bytes, VecStats& vs, bool count = true) {
     m.f.load_vector(m.core, bytes.data());
-    uint16_t opcode, expand;
-    // struct TestCase { State before, after; u16 opcode, expand; } -- 8-byte aligned, so 4 bytes of tail padding
-    std::memcpy(&opcode, bytes.data() + bytes.size() - 8, 2);
-    std::memcpy(&expand, bytes.data() + bytes.size() - 6, 2);
+    uint16_t opcode = genstream::opcode_of(bytes), expand = genstream::expand_of(bytes);
     const optable::Info& info = optable::info(opcode);
     ShimRunInfo ri{};
     m.f.log_begin(m.core);
@@ -225,40 +211,14 @@ void run_generator_clause() {
     }
     if (c.worker != 0 && c.tier == "quick")
         return; // quick: one pass, by worker 0; thorough: every worker streams its own pass
-    char dir[] = "/tmp/verif_c01_XXXXXX";
-    if (!mkdtemp(dir))
-        return;
-    std::string fifo = std::string(dir) + "/vectors.fifo";
-    if (mkfifo(fifo.c_str(), 0600) != 0)
-        return;
     uint32_t gseed = (uint32_t)vf::mix64(c.seed + 0x5151 + c.worker);
-    bool gen_ok = true;
-    std::thread producer([&] {
-        Teakra::Test::Random::VerifSetSeed(gseed);
-        gen_ok = Teakra::Test::GenerateTestCasesToFile(fifo.c_str());
-    });
-    int fd = open(fifo.c_str(), O_RDONLY);
     VecStats vs;
-    std::vector<uint8_t> buf(vsz);
     vf::Result first_fail;
     std::vector<uint8_t> fail_bytes;
-    std::unordered_set<uint64_t> seen;
-    while (true) {
-        size_t got = 0;
-        while (got < vsz) {
-            ssize_t r = read(fd, buf.data() + got, vsz - got);
-            if (r <= 0)
-                break;
-            got += (size_t)r;
-        }
-        if (got < vsz)
-            break;
+    bool gen_ok = genstream::for_each_vector(gseed, vsz, [&](const std::vector<uint8_t>& buf) {
         c.current_prop = "generator_vectors";
         vf::Result r = check_vector(m, buf, vs);
-        uint64_t h = vf::hash_bytes(buf.data(), buf.size());
-        uint64_t before = vs.with_access;
-        (void)before;
-        vf::note(h, true);
+        vf::note(vf::hash_bytes(buf.data(), buf.size()), true);
         if (!r.ok && first_fail.ok && !c.known.count(r.sig)) {
             first_fail = r;
             fail_bytes = buf;
@@ -267,11 +227,7 @@ void run_generator_clause() {
             ++k.first;
             k.second = r.why;
         }
-    }
-    close(fd);
-    producer.join();
-    unlink(fifo.c_str());
-    rmdir(dir);
+    });
     vf::klass("generator vectors", vs.vectors);
     vf::klass("generator vectors: unimplemented (tolerated, as test_verifier skips them)", vs.unimplemented);
     vf::klass("generator vectors with >=1 data access", vs.with_access);
